@@ -213,7 +213,7 @@ def run(ctx):
                 # "no block and nothing sent yet" also describes an object whose first block could not be created (read error, encoder refusing the
                 # block): the lone close-object packet is legitimate only for a transfer length of 0 - tested in release builds too
                 rflow = Flow(f.body, drop_debug=True)
-                zero = any(a[0] == "eq" and t and re.search(r"\.transfer_length$", show(a[1]) if show(a[2]) == "0" else show(a[2])) and "0" in (show(a[1]), show(a[2]))
+                zero = any(a[0] == "eq" and t and re.search(r"\.transfer_length$", show(sl.expand(a[1])) if show(a[2]) == "0" else show(sl.expand(a[2]))) and "0" in (show(a[1]), show(a[2]))
                            for (a, t) in rflow.facts_at(bb))
                 key2 = "BlockEncoder::read empty-object packet only for transfer_length == 0"
                 if zero:
